@@ -110,6 +110,7 @@ type Frame struct {
 type loopEntry struct {
 	decr Term
 	has  bool
+	head *State // state at the loop head of the current iteration (for prev())
 }
 
 type State struct {
